@@ -30,7 +30,7 @@ package dns
 
 // OPT pseudo-records never compare equal, not even with themselves or their copy (see known findings)
 //@ func (*OPT).isDuplicate [C20]
-//@   ensures self: ref(r2) == ref(rr) ==> ret0
+//@   ensures self: ref(r2) == ref(rr) ==> ret0 [C20]
 
 //@ func (*APLPrefix).equals [C20]
 //@   requires a != nil && b != nil
